@@ -110,8 +110,12 @@ func checkC08(r *core.Result) {
 				// error discipline
 				var dropped []string
 				for _, c := range a.calls {
-					if c.method == "More" {
-						continue
+					// only calls that return an error are subject to the rule
+					if fn := staticCallee(info, c.call); fn != nil {
+						res := fn.Type().(*types.Signature).Results()
+						if res.Len() == 0 || res.At(res.Len()-1).Type().String() != "error" {
+							continue
+						}
 					}
 					if ok, why := errorIsReturned(info, c.call, parents); !ok {
 						dropped = append(dropped, c.method+": "+why)
